@@ -209,6 +209,52 @@ MUTANTS += [
     ("c08-ms-forward-logdet", ["C08"], [(TB, "            all_outputs.append(outputs.reshape(batch_size, -1))\n            total_logabsdet += logabsdet", "            all_outputs.append(outputs.reshape(batch_size, -1))\n            total_logabsdet = logabsdet")], "MS-SPLIT"),
 ]
 
+SL = T + "splines/linear.py"
+SQ = T + "splines/quadratic.py"
+SC = T + "splines/cubic.py"
+SR = T + "splines/rational_quadratic.py"
+NL = T + "nonlinearities.py"
+MUTANTS += [
+    # ---- C09 ----
+    ("c09-lin-no-pin", ["C09"], [(SL, "    cdf[..., -1] = 1.0\n", "")], "SPL-PIN"),
+    ("c09-quad-no-pin-loc", ["C09"], [(SQ, "    bin_locations[..., -1] = 1.0\n", "")], "SPL-PIN"),
+    ("c09-cubic-no-pin-h", ["C09"], [(SC, "    cumheights[..., -1] = 1\n", "")], "SPL-PIN"),
+    ("c09-rq-no-pin-top", ["C09"], [(SR, "    cumheights[..., -1] = top\n", "")], "SPL-PIN"),
+    ("c09-rq-pin-wrong-side", ["C09"], [(SR, "    cumheights[..., -1] = top\n", "    cumheights[..., -1] = right\n")], "SPL-PIN"),
+    ("c09-rq-no-pin-left", ["C09"], [(SR, "    cumwidths[..., 0] = left\n", "")], "SPL-PIN"),
+    ("c09-quad-pad-right", ["C09"], [(SQ, "    bin_left_cdf = F.pad(bin_left_cdf, pad=(1, 0), mode=\"constant\", value=0.0)", "    bin_left_cdf = F.pad(bin_left_cdf, pad=(1, 0), mode=\"constant\", value=1e-6)")], "SPL-PIN"),
+    ("c09-rq-search-wrong-knots", ["C09"], [(SR, "            cumheights, inputs, eps=1e-6 * (top - bottom)", "            cumwidths, inputs, eps=1e-6 * (top - bottom)")], "INV-SIDE"),
+    ("c09-cubic-search-wrong-knots", ["C09"], [(SC, "        bin_idx = torchutils.searchsorted(cumheights, inputs)[..., None]", "        bin_idx = torchutils.searchsorted(cumwidths, inputs)[..., None]")], "INV-SIDE"),
+    ("c09-quad-denorm-wrong-box", ["C09"], [(SQ, "    if inverse:\n        outputs = outputs * (right - left) + left\n    else:\n        outputs = outputs * (top - bottom) + bottom", "    if inverse:\n        outputs = outputs * (top - bottom) + bottom\n    else:\n        outputs = outputs * (right - left) + left")], "INV-SIDE"),
+    ("c09-lin-norm-wrong-box", ["C09"], [(SL, "    if inverse:\n        inputs = (inputs - bottom) / (top - bottom)\n    else:\n        inputs = (inputs - left) / (right - left)", "    if inverse:\n        inputs = (inputs - left) / (right - left)\n    else:\n        inputs = (inputs - left) / (right - left)")], "INV-SIDE"),
+    ("c09-rq-no-floor", ["C09"], [(SR, "    widths = min_bin_width + (1 - min_bin_width * num_bins) * widths\n    cumwidths", "    widths = (1 - min_bin_width * num_bins) * widths\n    cumwidths")], "SPL-FLOOR"),
+    ("c09-rq-derivative-relu", ["C09"], [(SR, "derivatives = min_derivative + F.softplus(unnormalized_derivatives, beta=beta)", "derivatives = min_derivative * 0 + F.relu(unnormalized_derivatives)")], "SPL-FLOOR"),
+    ("c09-cubic-no-valueerror", ["C09"], [(SC, "    if min_bin_width * num_bins > 1.0:\n        raise ValueError(\"Minimal bin width too large for the number of bins\")\n", "")], "SPL-FLOOR"),
+    ("c09-quad-heights-minus", ["C09"], [(SQ, "unnorm_heights_exp = F.softplus(unnormalized_heights) + 1e-3", "unnorm_heights_exp = F.softplus(unnormalized_heights) - 1e-3")], "SPL-FLOOR"),
+    ("c09-tail-open-mask", ["C09", "C17"], [(SR, "inside_interval_mask = (inputs >= -tail_bound) & (inputs <= tail_bound)", "inside_interval_mask = (inputs > -tail_bound) & (inputs < tail_bound)")], "SPL-TAIL"),
+    ("c09-tail-nonsquare", ["C09", "C17"], [(SQ, "            bottom=-tail_bound,\n            top=tail_bound,", "            bottom=0.0,\n            top=1.0,")], "SPL-"),
+    ("c09-tail-outside-noncomplement", ["C09"], [(SC, "    outside_interval_mask = ~inside_interval_mask", "    outside_interval_mask = (inputs <= -tail_bound) | (inputs >= tail_bound)")], "SPL-TAIL"),
+    ("c09-tail-logdet-nonzero", ["C09"], [(SL, "        logabsdet[outside_interval_mask] = 0\n", "        logabsdet[outside_interval_mask] = 1\n")], "SPL-TAIL"),
+    ("c09-tail-rq-const", ["C09"], [(SR, "        constant = np.log(np.exp(1 - min_derivative) - 1)\n        unnormalized_derivatives[..., 0] = constant", "        constant = np.log(np.exp(1.0) - 1)\n        unnormalized_derivatives[..., 0] = constant")], "SPL-TAIL"),
+    ("c09-tail-minderiv-not-forwarded", ["C09"], [(SR, "            min_derivative=min_derivative,\n            enable_identity_init=enable_identity_init,\n        )\n\n    return outputs, logabsdet", "            enable_identity_init=enable_identity_init,\n        )\n\n    return outputs, logabsdet")], "SPL-TAIL"),
+    ("c09-lin-no-clamp", ["C09"], [(SL, "        outputs += alpha * input_pdfs\n        outputs = torch.clamp(outputs, 0, 1)\n", "        outputs += alpha * input_pdfs\n")], "SPL-CLAMP"),
+    ("c09-lin-no-index-repair", ["C09"], [(SL, "        bin_idx[bin_idx >= num_bins] = num_bins - 1\n", "")], "SPL-CLAMP"),
+    ("c09-tail-two-bounds", ["C09", "C17"], [(SC, "inside_interval_mask = (inputs >= -tail_bound) & (inputs <= tail_bound)", "inside_interval_mask = (inputs >= -tail_bound) & (inputs <= 1.0)")], "SPL-TAIL"),
+    # ---- C17 ----
+    ("c17-exp-closed", ["C17"], [(NL, "        if torch.min(inputs) <= 0.:", "        if torch.min(inputs) < 0.:")], "DOM-GUARD"),
+    ("c17-tanh-closed-upper", ["C17"], [(NL, "if torch.min(inputs) <= -1 or torch.max(inputs) >= 1:", "if torch.min(inputs) <= -1 or torch.max(inputs) > 1:")], "DOM-GUARD"),
+    ("c17-sigmoid-open", ["C17"], [(NL, "        if torch.min(inputs) < 0 or torch.max(inputs) > 1:\n            raise InputOutsideDomain()\n\n        inputs = torch.clamp", "        if torch.min(inputs) <= 0 or torch.max(inputs) >= 1:\n            raise InputOutsideDomain()\n\n        inputs = torch.clamp")], "DOM-GUARD"),
+    ("c17-cauchy-no-guard", ["C17"], [(NL, "        if torch.min(inputs) < 0 or torch.max(inputs) > 1:\n            raise InputOutsideDomain()\n\n        outputs = torch.tan", "        outputs = torch.tan")], "DOM-GUARD"),
+    ("c17-spline-guard-after-norm", ["C17"], [(SQ, "    if torch.min(inputs) < left or torch.max(inputs) > right:\n        raise InputOutsideDomain()\n\n    if inverse:\n        inputs = (inputs - bottom) / (top - bottom)\n    else:\n        inputs = (inputs - left) / (right - left)\n", "    if inverse:\n        inputs = (inputs - bottom) / (top - bottom)\n    else:\n        inputs = (inputs - left) / (right - left)\n\n    if torch.min(inputs) < left or torch.max(inputs) > right:\n        raise InputOutsideDomain()\n")], "DOM-GUARD"),
+    ("c17-spline-strict", ["C17"], [(SR, "    if torch.min(inputs) < left or torch.max(inputs) > right:", "    if torch.min(inputs) <= left or torch.max(inputs) >= right:")], "DOM-GUARD"),
+    ("c17-spline-only-min", ["C17"], [(SC, "    if torch.min(inputs) < left or torch.max(inputs) > right:", "    if torch.min(inputs) < left:")], "DOM-GUARD"),
+    ("c17-sigmoid-no-clamp", ["C17"], [(NL, "        inputs = torch.clamp(inputs, self.eps, 1 - self.eps)\n", "")], "DOM-CLAMP"),
+    ("c17-rq-absolute-eps", ["C17"], [(SR, "            cumwidths, inputs, eps=1e-6 * (right - left)", "            cumwidths, inputs")], "EPS-UNITS"),
+    ("c17-rq-eps-wrong-box", ["C17"], [(SR, "            cumheights, inputs, eps=1e-6 * (top - bottom)", "            cumheights, inputs, eps=1e-6")], "EPS-UNITS"),
+    ("c17-nonsquare-callsite", ["C17"], [(T + "autoregressive.py", "        outputs, logabsdet = linear_spline(\n            inputs=inputs, unnormalized_pdf=unnormalized_pdf, inverse=inverse\n        )", "        outputs, logabsdet = linear_spline(\n            inputs=inputs, unnormalized_pdf=unnormalized_pdf, inverse=inverse, left=-1.0, right=1.0\n        )")], "SPL-SQUARE"),
+    ("c17-logit-not-inverse-sigmoid", ["C17"], [(NL, "class Logit(InverseTransform):\n    def __init__(self, temperature=1, eps=1e-6):\n        super().__init__(Sigmoid(temperature=temperature, eps=eps))", "class Logit(Sigmoid):\n    def __init__(self, temperature=1, eps=1e-6):\n        super().__init__(temperature=temperature, eps=eps)")], "DOM-GUARD"),
+]
+
 BENIGN = [
     ("b-c06-rename-local", ["C06"], [(MADE1, "        prev_out_degrees = self.initial_layer.degrees\n        for _ in range(num_blocks):", "        prev_out_degrees = self.initial_layer.degrees\n        for _blk in range(num_blocks):")]),
     ("b-c06-guard-form", ["C06"], [(MADE1, "if torch.all(self.degrees >= in_degrees).item() != 1:", "if not torch.all(in_degrees <= self.degrees):")]),
@@ -241,5 +287,10 @@ BENIGN = [
     ("b-c08-accumulate-spelling", ["C08"], [(TB, "            total_logabsdet += logabsdet\n        return outputs, total_logabsdet", "            total_logabsdet = logabsdet + total_logabsdet\n        return outputs, total_logabsdet")]),
     ("b-c08-ms-rename-locals", ["C08"], [(TB, "        rev_split_inputs = split_inputs[::-1]", "        pieces_rev = split_inputs[::-1]"), (TB, "        hiddens, logabsdet = rev_inv_transforms[0](rev_split_inputs[0], context)", "        hiddens, logabsdet = rev_inv_transforms[0](pieces_rev[0], context)"), (TB, "            rev_inv_transforms[1:], rev_split_inputs[1:]", "            rev_inv_transforms[1:], pieces_rev[1:]")]),
     ("b-c08-ms-ceil-spelling", ["C08"], [(TB, "            output_shape[self._split_dim - 1] = (\n                output_shape[self._split_dim - 1] + 1\n            ) // 2", "            output_shape[self._split_dim - 1] = output_shape[self._split_dim - 1] - output_shape[self._split_dim - 1] // 2")]),
+    ("b-c09-pin-by-store", ["C09"], [(SL, "    cdf = F.pad(cdf, pad=(1, 0), mode=\"constant\", value=0.0)\n", "    cdf = F.pad(cdf, pad=(1, 0), mode=\"constant\", value=0.5)\n    cdf[..., 0] = 0.0\n")]),
+    ("b-c09-outside-explicit", ["C09", "C17"], [(SQ, "    outside_interval_mask = ~inside_interval_mask", "    outside_interval_mask = (inputs < -tail_bound) | (inputs > tail_bound)")]),
+    ("b-c17-guard-method-form", ["C17"], [(NL, "        if torch.min(inputs) <= 0.:", "        if inputs.min() <= 0:")]),
+    ("b-c17-guard-swapped", ["C17"], [(SL, "    if torch.min(inputs) < left or torch.max(inputs) > right:", "    if right < torch.max(inputs) or left > torch.min(inputs):")]),
+    ("b-c09-rename-locals", ["C09", "C17"], [(SR, "    cumwidths = torch.cumsum(widths, dim=-1)\n    cumwidths = F.pad(cumwidths, pad=(1, 0), mode=\"constant\", value=0.0)\n    cumwidths = (right - left) * cumwidths + left\n    cumwidths[..., 0] = left\n    cumwidths[..., -1] = right\n    widths = cumwidths[..., 1:] - cumwidths[..., :-1]", "    xk = torch.cumsum(widths, dim=-1)\n    xk = F.pad(xk, pad=(1, 0), mode=\"constant\", value=0.0)\n    xk = (right - left) * xk + left\n    xk[..., 0] = left\n    xk[..., -1] = right\n    cumwidths = xk\n    widths = cumwidths[..., 1:] - cumwidths[..., :-1]")]),
     ("b-c14-guard-order", ["C14"], [(NORM, "if self.training and not self.initialized:", "if not self.initialized and self.training:")]),
 ]
